@@ -38,6 +38,8 @@ m = {
     'engines': [
         {'name': 'verus-contracts', 'path': '/verif/check', 'serves_properties': sorted(claimed),
          'kind_free_text': 'contracts (requires/ensures/invariants/lemmas) in /verif/contracts applied to the functions re-extracted from /repo/src on each run; Verus 0.2026.09.13 + Z3 discharges every obligation; driver tools/driver.py'},
+        {'name': 'kani-harnesses', 'path': '/verif/kani', 'serves_properties': sorted(pid for pid in claimed if props[pid].get('kani')),
+         'kind_free_text': 'second back end for the scalar properties: loop-free full-domain Kani 0.68 / CBMC harnesses over the public API of the current tree (complete for their assertions; CBMC supplies concrete counterexample values); run in the thorough tier and whenever the first back end reports a violation (tools/kani_driver.py)'},
     ],
     'checks': checks,
     'not_applicable': not_app,
